@@ -171,6 +171,10 @@ class ChildWorld:
                 else:
                     kw[k] = _to_unit_objects(v)
             self.scripts[sidx] = st.RDScript(system=system, **kw)
+            if sd.get("post_units"):
+                # the caller changes the script's units system after construction (e.g. after loading it): the stored
+                # quantities keep their own units, only the units of the output change
+                self.scripts[sidx].units_system = st.UnitsSystem(**sd["post_units"])
         return self.scripts[sidx]
 
     def make_engine(self, kind, via):
